@@ -262,7 +262,7 @@ spec(lean="sort_tree6_", module="AlgoCat", file="swcgeom/core/tree_utils.py", fu
      vars=dict({c: _L for c in _SIX}, new_ids=_L, new_pids=_L, id_map=_L),
      ret="Unit", out=list(_SIX), fuel=True, tree_cols={"tree": _CCOLS}, subst={"tree": ("()", "Unit")},
      stmt_subst={"tree.ndata = {k: tree.ndata[k][id_map] for k in tree.ndata}": "\n".join(f"{c} = {c}[id_map]" for c in _SIX),
-                 "tree.ndata.update(id=new_ids, pid=new_pids)": "ids = new_ids\npids = new_pids"},
+                 "tree.ndata[tree.names.id] = new_ids": "ids = new_ids", "tree.ndata[tree.names.pid] = new_pids": "pids = new_pids"},
      doc="`swcgeom/core/tree_utils.py::_sort_tree` on a tree that is its six columns id, pid, type, x, y, z (every column is gathered by `id_map`, "
          "then the two topology columns are replaced)")
 TREE_CALLEE_INSTANCES.setdefault("_sort_tree", [])
